@@ -48,6 +48,7 @@ def cases(tier, seed):
                  "TransformedTargetRegressor2", "TransformedTargetClassifier2", "SkBaseTransformLearner",
                  "SkBaseTransformStacking", "DecisionTreeLogisticRegression", "PredictableTSNE"):
         out.append({"gen": "inner", "id": "inner-%s" % name, "cls": name, "sub": seed, "tier": tier})
+    out.append({"gen": "tsdiff", "id": "tsdiff", "sub": seed})
     # upstream's own tests as a workload: call histories this harness did not write, under class-level monitors
     files = UPSTREAM_QUICK if tier == "quick" else None
     for f in upstream_files(files):
@@ -724,7 +725,44 @@ def run_upstream(case, ctx):
     ctx.cls("upstream-test-file")
 
 
+def run_tsdiff(case, ctx):
+    """The differencing transformer used directly on the caller's float64 series (inside the regressors it only sees
+    internal arrays), every degree: fit and transform read the series, weights and exogenous block - nothing is written."""
+    from mlinsights.timeseries.preprocessing import TimeSeriesDifference
+    K = "C02/TimeSeriesDifference/"
+    for deg in (1, 2, 3, 4):
+        for with_X in (False, True):
+            for dt in ("float64", "float32", "int64"):
+                cfg = {"class": "TimeSeriesDifference", "degree": deg, "with_X": with_X, "dtype": dt}
+                r_ = numpy.random.RandomState(deg + case["sub"])
+                yy = (numpy.cumsum(r_.randn(20)) * 3.0)
+                yy = numpy.round(yy * 10).astype(dt) if dt == "int64" else yy.astype(dt)
+                XX = r_.randn(20, 2) if with_X else None
+                ww = r_.rand(20) + 0.5
+                keep_ = (yy.copy(), None if XX is None else XX.copy(), ww.copy())
+                try:
+                    t_ = TimeSeriesDifference(deg)
+                    p0_ = params_fp(t_)
+                    t_.fit(XX, yy, ww)
+                    ok_fit = numpy.array_equal(yy, keep_[0]) and (XX is None or numpy.array_equal(XX, keep_[1])) and \
+                        numpy.array_equal(ww, keep_[2])
+                    t_.transform(XX, yy, ww)
+                    ok_tr = numpy.array_equal(yy, keep_[0]) and (XX is None or numpy.array_equal(XX, keep_[1])) and \
+                        numpy.array_equal(ww, keep_[2])
+                except Exception as e:
+                    ctx.excluded("TimeSeriesDifference direct use refused: %s" % type(e).__name__)
+                    continue
+                ctx.hit("frame.ts_difference_direct")
+                if not ok_fit or not ok_tr:
+                    ctx.violation(K + "%s/input-modified/direct-use" % ("fit" if not ok_fit else "transform"),
+                                  "TimeSeriesDifference(%d) wrote into the caller's %s series" % (deg, dt), cfg=cfg)
+                if diff_fp(p0_, params_fp(t_)):
+                    ctx.violation(K + "fit/params-changed", "fit changed get_params", cfg=cfg)
+
+
 def run_case(case, ctx):
+    if case["gen"] == "tsdiff":
+        return run_tsdiff(case, ctx)
     {"frame": run_frame, "invalid": run_invalid, "sites": run_sites, "inner": run_inner,
      "upstream": run_upstream}[case["gen"]](case, ctx)
 
